@@ -165,6 +165,13 @@ func (s *jwtSigner) Hash() []byte {
 	hash.Write(stringx.ToBytes(jwk.Algorithm))
 	hash.Write(stringx.ToBytes(s.iss))
 
+	// the key id is not sufficient to identify the key: after a reload of the key store, another
+	// key may be available under the same id, and the tokens issued (and cached) using the previous
+	// key cannot be verified any more
+	if thumbprint, err := jwk.Thumbprint(crypto.SHA256); err == nil {
+		hash.Write(thumbprint)
+	}
+
 	return hash.Sum(nil)
 }
 
